@@ -1123,7 +1123,7 @@ func (in *Interp) sliceOp(instr *ssa.Slice, x, lo, hi, max Val) Val {
 		}
 		arr := (*x.Slot).(Array)
 		// arrays are stored inline in the slot; expose them as an object
-		o := &Obj{ID: x.Obj.ID, Cells: arr, Site: x.Obj.Site, Global: x.Obj.Global}
+		o := &Obj{ID: x.Obj.ID, Cells: arr, Site: x.Obj.Site, Global: x.Obj.Global, Released: x.Obj.Released, PoolOwned: x.Obj.PoolOwned}
 		obj, off, ln, cp = o, 0, len(arr), len(arr)
 	default:
 		panic(fmt.Sprintf("slice of %T", x))
@@ -1667,6 +1667,69 @@ func (in *Interp) builtin(b *ssa.Builtin, args []Val) Val {
 		}
 	case "recover":
 		return Iface{}
+	case "String", "Slice", "SliceData", "StringData":
+		// package unsafe. A string made from bytes is a snapshot in this
+		// memory model (strings are values): if the bytes are changed later
+		// the native run differs and the path is reported as a translation
+		// mismatch, never as a pass.
+		cellIndex := func(p Ptr) int {
+			if p.Obj == nil {
+				return -1
+			}
+			for i := range p.Obj.Cells {
+				if &p.Obj.Cells[i] == p.Slot {
+					return i
+				}
+			}
+			return -1
+		}
+		switch b.Name() {
+		case "String", "Slice":
+			n := in.concIndex(in.to64(args[1], types.Typ[types.Int]), 1<<40, "makeslice")
+			p := in.asPtr(args[0])
+			if p.Slot == nil {
+				if n != 0 {
+					in.libPanic("unsafe-nil", "unsafe."+b.Name()+": ptr is nil and len is not zero")
+				}
+				if b.Name() == "String" {
+					return Str{}
+				}
+				return Slice{}
+			}
+			off := cellIndex(p)
+			if off < 0 || off+n > len(p.Obj.Cells) {
+				in.inconclusive("unsafe." + b.Name() + " of memory that is not a slice's backing array")
+			}
+			in.noteAccess(p.Obj)
+			if b.Name() == "Slice" {
+				return Slice{p.Obj, off, n, n}
+			}
+			bs := make([]Sc, n)
+			for i := range bs {
+				sc, ok := p.Obj.Cells[off+i].(Sc)
+				if !ok {
+					in.inconclusive("unsafe.String of non-byte memory")
+				}
+				bs[i] = sc
+			}
+			return Str{B: bs}
+		case "SliceData":
+			sl := args[0].(Slice)
+			if sl.Obj == nil || sl.Cap == 0 {
+				return Ptr{}
+			}
+			return Ptr{&sl.Obj.Cells[sl.Off], sl.Obj}
+		case "StringData":
+			st := in.flat(args[0].(Str))
+			if len(st.B) == 0 {
+				return Ptr{}
+			}
+			o := in.newObj(len(st.B), "stringdata")
+			for i, c := range st.B {
+				o.Cells[i] = c
+			}
+			return Ptr{&o.Cells[0], o}
+		}
 	case "ssa:wrapnilchk":
 		if isNilVal(args[0]) {
 			in.libPanic("nil-deref", "wrapper nil check")
